@@ -1,0 +1,27 @@
+//go:build verif
+
+package replica
+
+import "github.com/lindb/lindb/models"
+
+// Verification export for property C07 (node crash recovery), round 12. No behaviour is added.
+
+// VerifWrapReplicator replaces the replicator registered for nodeID in the partition by
+// wrap(current). The harness passes a forwarding wrapper (embedding the current Replicator) whose
+// GetMessage can return an error for a chosen sequence, so that the error branch of
+// partition.replica (GetMessage fails -> replicator.IgnoreMessage(seq), Replica is not called) runs
+// on the real partition / local replicator / consumer group. Every other method, IgnoreMessage
+// included, is the real replicator's. Must be called while no replica loop iteration is running
+// (the harness drives the loop body synchronously through VerifReplicaOnce).
+func VerifWrapReplicator(p Partition, nodeID models.NodeID, wrap func(Replicator) Replicator) bool {
+	pp, ok := p.(*partition)
+	if !ok {
+		return false
+	}
+	r, ok := pp.replicators[nodeID]
+	if !ok || r == nil {
+		return false
+	}
+	pp.replicators[nodeID] = wrap(r)
+	return true
+}
